@@ -20,6 +20,7 @@ use crate::BinOperator;
 
 fn declare() {
     use crate::instruction::verif_gate::*;
+    scalar_ops_only();
     allow_mask((1 << K_VARIABLE) | (1 << K_BINOPERATION) | (1 << K_UNARYOPERATION) | (1 << K_BLOCK) | (1 << K_IFELSE) | (1 << K_MATCH) | (1 << K_SETIFELSE) | (1 << K_LOOP));
 }
 fn iws(i: Instruction) -> InstructionWithStr {
